@@ -6,6 +6,7 @@ import (
 	"time"
 
 	"verif/harness/core"
+	"verif/harness/drive/outline"
 )
 
 // a fixed program with two nested ranges, callbacks and 45 pages
@@ -209,5 +210,5 @@ func selfTest(ctx *core.Ctx) error {
 		return core.Infra("self-test: actions never taken: %v", res.ZeroCoverage)
 	}
 	ctx.Logf("self-test (iv): every action of MC_PageTree is taken (coverage run, %d states)", res.Distinct)
-	return nil
+	return outline.SelfTest(ctx)
 }
